@@ -1,6 +1,7 @@
 package toxics
 
 import (
+	"math"
 	"math/rand"
 	"time"
 )
@@ -20,6 +21,10 @@ func (t *LatencyToxic) delay() time.Duration {
 	// Delay = t.Latency +/- t.Jitter
 	delay := t.Latency
 	jitter := t.Jitter
+	if jitter > math.MaxInt64/2 {
+		// rand.Int63n panics on a non-positive argument: keep jitter*2 from overflowing
+		jitter = math.MaxInt64 / 2
+	}
 	if jitter > 0 {
 		// #nosec G404 -- was ignored before too
 		delay += rand.Int63n(jitter*2) - jitter
